@@ -74,6 +74,9 @@ def disambiguate_identifiers(statements_a, statements_b,
 
     from pymbolic.imperative.analysis import get_all_used_identifiers
 
+    # walked twice below: may be a one-shot iterable
+    statements_b = list(statements_b)
+
     id_a = get_all_used_identifiers(statements_a)
     id_b = get_all_used_identifiers(statements_b)
 
@@ -102,6 +105,9 @@ def disambiguate_identifiers(statements_a, statements_b,
 
 def disambiguate_and_fuse(statements_a, statements_b,
         should_disambiguate_name=None):
+    # walked twice below: may be a one-shot iterable
+    statements_a = list(statements_a)
+
     statements_b, subst_b = disambiguate_identifiers(
             statements_a, statements_b,
             should_disambiguate_name)
